@@ -100,7 +100,8 @@ impl World {
         if !self.sc.fin {
             return Ok(());
         }
-        if cb && matches!(pre, P::Marking | P::Marked) {
+        if (cb || matches!(op.k, K::DropH | K::CloneH)) && matches!(pre, P::Marking | P::Marked) {
+            // (dropping a handle un-roots its target: a mutation of the root set)
             self.mutated = true;
         }
         if op.k == K::FinQuery && matches!(pre, P::Marking | P::Marked) {
@@ -259,7 +260,7 @@ impl World {
         }
         for p in &nodes {
             let so = &self.sh.objs[*p as usize];
-            for s in 0..sc.k {
+            for s in 0..(if sc.graph { sc.k } else { 0 }) {
                 if room {
                     ops.push(Op::n2(K::NewChild, *p, s));
                 }
